@@ -503,7 +503,7 @@ PROPS["C01"] = {
 import suite_names  # noqa: E402
 
 PROPS["C09"] = {
-    "lean": ["CocoVerif.Props.C09", "CocoVerif.Props.Front"],
+    "lean": ["CocoVerif.Props.C09", "CocoVerif.Props.Front", "CocoVerif.Props.C09Init"],
     "lean_extra": ["CocoVerif.Model.Names"] + FRONT_LEAN,
     "suites": [{"name": "names", "relevant": lambda c: True, "oracle": suite_names.oracle, "classify": suite_names.classify}]
               + FRONT_SUITES,
